@@ -25,6 +25,8 @@ type Gen struct {
 	fieldTags map[string]int
 	allFuncs  []*ssa.Function
 	impls     map[string][]*ssa.Function // interface method key -> implementations in module
+	ifaceImplCache map[*ssa.Function][]ifaceImpl
+	canary    bool
 }
 
 type locKind int
@@ -64,7 +66,7 @@ type fnTrans struct {
 	entry *State
 	out   map[*ssa.BasicBlock]*State
 	edge  map[[2]int]string // edge condition (excluding source reach)
-	names map[string][]ssa.Value
+	names map[string][]nameRef
 	local map[ssa.Value]bool // objects allocated in this function (still private)
 	loops map[*ssa.BasicBlock]*loopInfo
 	order []*ssa.BasicBlock
@@ -76,8 +78,20 @@ type fnTrans struct {
 	uncontracted map[string]bool
 	ghostRet  map[string]string
 	stable    map[ssa.Value]string // cells written once: their value
+	lastSel   string
+	ghostVals map[string]sval
+	usedContracts map[string]bool
+	lockKeys  []lockKeyRef
 	curBlock *ssa.BasicBlock
 	rangeOf  map[ssa.Value]*ssa.Range
+}
+
+type lockKeyRef struct{ term, field string }
+
+type nameRef struct {
+	v   ssa.Value
+	blk *ssa.BasicBlock
+	idx int
 }
 
 type loopInfo struct {
@@ -110,14 +124,21 @@ func (t *fnTrans) abstract(what string) {
 // ---- obligations ----------------------------------------------------------
 
 func (t *fnTrans) oblige(kind, disc string, pos token.Pos, goal string, note string) *Obligation {
-	o := &Obligation{Kind: kind, Func: t.key, Name: kind + ":" + t.key + ":" + disc, Pos: t.g.posStr(pos), Goal: goal, Reach: t.cur.reach, Note: note}
+	o := &Obligation{Kind: kind, Func: t.key, Name: strings.ReplaceAll(kind+":"+t.key+":"+disc, " ", "_"), Pos: t.g.posStr(pos), Goal: goal, Reach: t.cur.reach, Note: note}
 	if goal == "true" || t.cur.reach == "false" {
 		o.Trivial = true
 	}
 	o.posv = pos
+	if !o.Trivial && !strings.HasPrefix(kind, "lock.") && !strings.HasPrefix(kind, "guard.") {
+		o.Vars = t.visibleVars()
+	}
 	t.c.obls = append(t.c.obls, o)
-	// continue under the assumption that the check passed
-	t.assume(goal)
+	// continue under the assumption that the check passed -- except for guard
+	// checks, whose goal is ghost lock state: assuming it would mask later
+	// unguarded accesses in the same function
+	if !strings.HasPrefix(kind, "guard.") {
+		t.assume(goal)
+	}
 	return o
 }
 
@@ -242,7 +263,7 @@ func (t *fnTrans) assumeType(x string, ty types.Type) {
 			t.assume("(and (<= " + lo + " " + x + ") (<= " + x + " " + hi + "))")
 		}
 	case *types.Slice:
-		t.assume(fmt.Sprintf("(and (<= 0 (sl_off %s)) (<= 0 (sl_len %s)) (<= (sl_len %s) (sl_cap %s)) (<= 0 (sl_arr %s)))", x, x, x, x, x))
+		t.assume(fmt.Sprintf("(and (<= 0 (sl_off %s)) (<= 0 (sl_len %s)) (<= (sl_len %s) (sl_cap %s)) (<= 0 (sl_arr %s)) (<= (sl_arr %s) %s))", x, x, x, x, x, x, t.h.get(t.cur, "alloc")))
 	case *types.Pointer, *types.Chan, *types.Map, *types.Signature:
 		t.assume(fmt.Sprintf("(and (<= 0 %s) (<= %s %s))", x, x, t.h.get(t.cur, "alloc")))
 	case *types.Interface:
@@ -421,7 +442,7 @@ func (t *fnTrans) zeroStruct(ty types.Type, base string) {
 }
 
 func pkgOf(t types.Type) *types.Package {
-	if n, ok := t.(*types.Named); ok {
+	if n, ok := types.Unalias(t).(*types.Named); ok {
 		return n.Obj().Pkg()
 	}
 	return nil
@@ -812,7 +833,13 @@ func (t *fnTrans) debugRef(in *ssa.DebugRef) {
 	if name == "" || name == "_" {
 		return
 	}
-	t.names[name] = append(t.names[name], in.X)
+	idx := 0
+	for i, x := range in.Block().Instrs {
+		if x == ssa.Instruction(in) {
+			idx = i
+		}
+	}
+	t.names[name] = append(t.names[name], nameRef{in.X, in.Block(), idx})
 }
 
 // ---- instructions ----------------------------------------------------------------
@@ -990,7 +1017,7 @@ func (t *fnTrans) describe(v ssa.Value) string {
 	// fall back to a source name if one was recorded
 	for n, vs := range t.names {
 		for _, x := range vs {
-			if x == v {
+			if x.v == v {
 				return n
 			}
 		}
@@ -1345,8 +1372,9 @@ func (t *fnTrans) slice(in *ssa.Slice) {
 
 func (t *fnTrans) mapHVs(m *types.Map) (dom, val, ln string) {
 	ks, vs := t.sortOf(m.Key()), t.sortOf(m.Elem())
-	dom = t.h.reg("MD:"+bare(ks), "(Array Int (Array "+ks+" Bool))")
-	val = t.h.reg("MV:"+bare(ks)+":"+bare(vs), "(Array Int (Array "+ks+" "+vs+"))")
+	dn, vn := t.g.mapVarNames(m)
+	dom = t.h.reg(dn, "(Array Int (Array "+ks+" Bool))")
+	val = t.h.reg(vn, "(Array Int (Array "+ks+" "+vs+"))")
 	ln = t.h.reg("ML", "(Array Int Int)")
 	return
 }
@@ -1681,4 +1709,40 @@ func exprName(e interface{}) string {
 		_ = x
 	}
 	return identName(e)
+}
+
+
+// visibleVars: source-level names (parameters and locals defined so far that
+// dominate the current point) with scalar SMT terms, for counterexample reports.
+func (t *fnTrans) visibleVars() map[string]string {
+	out := map[string]string{}
+	for _, p := range t.fn.Params {
+		if s := t.sortOf(p.Type()); s == "Int" || s == "Bool" {
+			out[p.Name()] = t.val(p)
+		}
+	}
+	e := &evalCtx{t: t, fn: t.fn, st: t.cur, old: t.entry, binds: map[string]sval{}, locals: true}
+	for name := range t.names {
+		if v, ok := e.local(name); ok && (v.sort == "Int" || v.sort == "Bool") {
+			out[name] = v.term
+		}
+		if v, ok := e.local(name); ok && v.sort == "Slice" {
+			out["len("+name+")"] = "(sl_len " + v.term + ")"
+		}
+	}
+	for name, v := range t.ghostVals {
+		if v.sort == "Slice" {
+			out["len("+name+")"] = "(sl_len " + v.term + ")"
+		} else if v.sort == "Int" || v.sort == "Bool" {
+			out[name] = v.term
+		}
+	}
+	return out
+}
+
+
+// map contents live in heaps keyed by the Go map type (maps of different types never alias)
+func (g *Gen) mapVarNames(m *types.Map) (dom, val string) {
+	k := sanitize(g.typeKey(m))
+	return "MD:" + k, "MV:" + k
 }
